@@ -11,8 +11,33 @@ spec fn enc(u: J, s: Strat, p: J, ds: DS, off: int) -> bool decreases u, 0nat {
     match u {
         J::Arr(a) => p is Arr && p->Arr_0.len() == a.len() && enc_arr(a, s, p->Arr_0, ds, off, a.len()),
         J::Obj(m) => p is Obj && enc_members(m, s, p->Obj_0, sd_strs(p->Obj_0), ds, off, m.len())
-            && sd_only(sd_strs(p->Obj_0), m, s, ds, off, m.len()),
+            && sd_only(sd_strs(p->Obj_0), m, s, ds, off, m.len()) && obj_members_ok(m, s, p->Obj_0),
         _ => p == u,
+    }
+}
+// a marked object consists of nothing but (possibly) the digest list and the visible members of the claim object, each name once
+spec fn obj_members_ok(m: Seq<(Seq<char>, J)>, s: Strat, pm: Seq<(Seq<char>, J)>) -> bool {
+    keys_unique(pm) && sd_member_ok(pm)
+    && forall|q: int| 0 <= q < pm.len() ==> (#[trigger] pm[q]).0 == K_SD()
+        || exists|i: int| 0 <= i < m.len() && #[trigger] m[i].0 == pm[q].0 && !sd_spec(s, m[i].0)
+}
+proof fn lemma_obj_members_ok_finish(m: Seq<(Seq<char>, J)>, s: Strat, c1: Seq<(Seq<char>, J)>, fin: Seq<(Seq<char>, J)>)
+    requires c1.len() >= 1, c1[0].0 == K_SD(), keys_unique(fin), sd_member_ok(fin),
+        forall|q: int| 1 <= q < c1.len() ==> exists|i: int| 0 <= i < m.len() && #[trigger] m[i].0 == (#[trigger] c1[q]).0 && !sd_spec(s, m[i].0),
+        fin =~= c1.remove(0) || exists|v: J| fin =~= c1.update(0, (K_SD(), v)),
+    ensures obj_members_ok(m, s, fin)
+{
+    assert forall|q: int| 0 <= q < fin.len() implies (#[trigger] fin[q]).0 == K_SD()
+        || exists|i: int| 0 <= i < m.len() && #[trigger] m[i].0 == fin[q].0 && !sd_spec(s, m[i].0) by {
+        if fin =~= c1.remove(0) {
+            assert(fin[q] == c1[q + 1]);
+            let i = choose|i: int| 0 <= i < m.len() && #[trigger] m[i].0 == c1[q + 1].0 && !sd_spec(s, m[i].0);
+            assert(m[i].0 == fin[q].0);
+        } else if q >= 1 {
+            assert(fin[q] == c1[q]);
+            let i = choose|i: int| 0 <= i < m.len() && #[trigger] m[i].0 == c1[q].0 && !sd_spec(s, m[i].0);
+            assert(m[i].0 == fin[q].0);
+        }
     }
 }
 // every entry of an object's digest list is the digest of the disclosure of one of that object's designated members, or a
